@@ -1297,7 +1297,144 @@ func runC15(o *out, thorough bool, r *rng, _ []string) map[string]interface{} {
 	reentrantHandlerScenarios(o, r, 24)
 	defaultCollectorScenarios(o, r, 40)
 	simultaneousCloses(o, thorough)
+	closeReentryScenarios(o, r)
 	return nil
+}
+
+// closeReentryScenarios (oracles in Go): (a) the handler of an in-flight transaction (Start, or the callback of Do)
+// calls Close when it is told that the client is shutting down - it runs on the closing goroutine, inside Close:
+// the nested call returns ErrClientClosed and the outer one completes; (b) a handler on the reader goroutine is
+// blocked in a nested Do whose reply never comes when Close is called: Close fails that transaction, the Do
+// returns, the reader exits, Close completes.
+func closeReentryScenarios(o *out, r *rng) {
+	mk := func(opts ...stun.ClientOption) (*stun.Client, *raceConn) {
+		conn := &raceConn{rd: make(chan []byte), closedCh: make(chan struct{}), writes: map[[12]byte]int{},
+			held: make(chan struct{}, 1), release: make(chan struct{}), idle: make(chan struct{}, 1)}
+		all := append([]stun.ClientOption{stun.WithClock(&vclock{now: agentBase}), stun.WithCollector(&manualCollector{}), stun.WithRTO(time.Hour)}, opts...)
+		c, err := stun.NewClient(conn, all...)
+		if err != nil {
+			return nil, nil
+		}
+		select {
+		case <-conn.idle:
+		case <-time.After(2 * time.Second):
+		}
+		return c, conn
+	}
+	for i := 0; i < 12; i++ {
+		c, _ := mk()
+		if c == nil {
+			continue
+		}
+		id := 9100 + i
+		tid := clientTID(id)
+		raw := stunMsg(r, 1, 20)
+		copy(raw[8:20], tid[:])
+		var mu sync.Mutex
+		var nested []error
+		calls := 0
+		h := func(ev stun.Event) {
+			err := c.Close()
+			mu.Lock()
+			calls++
+			nested = append(nested, err)
+			mu.Unlock()
+		}
+		doDone := make(chan error, 1)
+		if i%2 == 0 {
+			_ = c.Start(&stun.Message{TransactionID: tid, Raw: raw}, h)
+			doDone <- nil
+		} else {
+			go func() { doDone <- c.Do(&stun.Message{TransactionID: tid, Raw: raw}, h) }()
+			time.Sleep(3 * time.Millisecond)
+		}
+		cd := make(chan error, 1)
+		go func() { cd <- c.Close() }()
+		line := fmt.Sprintf("x handler-calls-Close-during-Close #%d (%s)", i, []string{"Start", "Do"}[i%2])
+		select {
+		case cerr := <-cd:
+			select {
+			case <-doDone:
+			case <-time.After(3 * time.Second):
+				o.failFor("C15", "deadlock-handler-calls-back-into-client", line+": Do did not return")
+				clientStuck.Add(1)
+			}
+			mu.Lock()
+			if cerr != nil || calls != 1 || len(nested) != 1 || !errors.Is(nested[0], stun.ErrClientClosed) {
+				o.failFor("C15", "close-not-once", fmt.Sprintf("%s: outer Close returned %v, handler ran %d times, nested Close returned %v", line, cerr, calls, nested))
+			}
+			mu.Unlock()
+		case <-time.After(4 * time.Second):
+			o.failFor("C15", "deadlock-handler-calls-back-into-client", line+": Close did not return within 4 s")
+			clientStuck.Add(3)
+		}
+		o.count("handler-calls-Close-during-Close")
+	}
+	for i := 0; i < 8; i++ {
+		var c *stun.Client
+		id := 9200 + i
+		tid := clientTID(id)
+		raw := stunMsg(r, 1, 20)
+		copy(raw[8:20], tid[:])
+		var mu sync.Mutex
+		var inner []error
+		var doRet []error
+		entered := make(chan struct{}, 1)
+		fallback := func(stun.Event) {
+			select {
+			case entered <- struct{}{}:
+			default:
+			}
+			err := c.Do(&stun.Message{TransactionID: tid, Raw: raw}, func(ev stun.Event) {
+				mu.Lock()
+				inner = append(inner, ev.Error)
+				mu.Unlock()
+			})
+			mu.Lock()
+			doRet = append(doRet, err)
+			mu.Unlock()
+		}
+		var conn *raceConn
+		c, conn = mk(stun.WithHandler(fallback))
+		if c == nil {
+			continue
+		}
+		go func() {
+			select {
+			case conn.rd <- response(r, 4300+i, 0): // matches no transaction: the fallback handler runs on the reader
+			case <-time.After(2 * time.Second):
+			}
+		}()
+		select {
+		case <-entered:
+		case <-time.After(2 * time.Second):
+		}
+		for k := 0; k < 200; k++ { // until the nested Do has written its request
+			conn.mu.Lock()
+			w := conn.writes[tid]
+			conn.mu.Unlock()
+			if w > 0 {
+				break
+			}
+			time.Sleep(time.Millisecond)
+		}
+		cd := make(chan error, 1)
+		go func() { cd <- c.Close() }()
+		line := fmt.Sprintf("x Close-while-a-handler-is-blocked-in-a-nested-Do #%d", i)
+		select {
+		case cerr := <-cd:
+			time.Sleep(2 * time.Millisecond)
+			mu.Lock()
+			if cerr != nil || len(inner) != 1 || inner[0] == nil || len(doRet) != 1 {
+				o.failFor("C15", "close-not-once", fmt.Sprintf("%s: Close returned %v, the nested Do's callback got %v, Do returned %v", line, cerr, inner, doRet))
+			}
+			mu.Unlock()
+		case <-time.After(4 * time.Second):
+			o.failFor("C15", "deadlock-handler-calls-back-into-client", line+": Close did not return within 4 s")
+			clientStuck.Add(3)
+		}
+		o.count("close-while-handler-in-nested-Do")
+	}
 }
 
 // countingConn: Close calls counted; Read blocks until the first of them
